@@ -32,6 +32,7 @@ def main():
         return mod.replay(a.replay)
 
     if a.no_build:
+        common.EVIDENCE_OUT = common.EVIDENCE / "scratch"
         br = common.BuildResult()
     else:
         br = common.prepare(pid, a.tier, getattr(mod, 'TABLES', None))
